@@ -6,8 +6,17 @@
 (* premature, corrupted, wrong signer, for a rejected scid, ...) and then a  *)
 (* random member of the class.  As in the executor, the premature updates of *)
 (* a channel are replayed (in any order) right after the channel arrived.    *)
+(*                                                                           *)
+(* ChainEvents = TRUE (GossipGenChain.cfg; executed on the real graph.Builder *)
+(* only) adds the chain: blocks connecting (no / a known / any set of funding *)
+(* outputs spent) and the tip disconnecting, with a class sequence weighted   *)
+(* towards "announce, reorganise, announce again".  Window = FALSE keeps node *)
+(* announcements for a vertex that has just lost its last channel to a stale  *)
+(* block out of the schedules until the next block has connected (see the     *)
+(* assumption recorded in vlib/props/c20.py: lnd sweeps such vertices only    *)
+(* when the next block connects).                                             *)
 EXTENDS Gossip, Json, Randomization
-CONSTANTS MaxLen
+CONSTANTS MaxLen, ChainEvents, Window
 VARIABLE hist
 
 Known(c)  == c \in chans
@@ -40,10 +49,24 @@ Class(k) ==
     [] k = 20 -> {m \in CUUniverse : Known(m.c) /\ m.bad = "none" /\ m.signer = Own(m.d) /\ Fresh(m)
                                      /\ m.fields \notin {"ok", "nomaxflag", "maxzero", "maxltmin"}}
     [] k = 21 -> {m \in CUUniverse : Known(m.c) /\ GoodCU(m) /\ ~Fresh(m) /\ m.ts > 0 /\ m.fields # "ok"}
+    \* a backend fault (or negative answer) that reaches the funding check
+    [] k = 22 -> {m \in CAUniverse : m.bad = "none" /\ m.fund # "ok" /\ m.c \notin chans \cup zombie \cup closed
+                                     /\ <<m.c, m.peer>> \notin rejects}
+    [] k = 23 -> {m \in CAUniverse : m.c \in closed}
+    \* the chain
+    [] k = 30 -> IF tip > MinTip THEN {BDMsg} ELSE {}
+    [] k = 31 -> IF tip < MaxTip THEN {BCMsg(0)} ELSE {}
+    [] k = 32 -> IF tip < MaxTip THEN {b \in ChainUniverse : b.t = "BC" /\ SpentOf(b.c) \cap chans # {}} ELSE {}
+    [] k = 33 -> IF tip < MaxTip THEN {b \in ChainUniverse : b.t = "BC"} ELSE {}
     [] OTHER  -> Universe
 \* weights: valid channel announcements and fresh valid updates are drawn more often
-ClassSeq == <<1, 1, 1, 2, 3, 4, 5, 5, 5, 6, 6, 7, 7, 8, 9, 10, 11, 12, 12, 13, 14, 15, 16, 17,
-              18, 19, 19, 20, 21>>
+ClassSeq == IF ChainEvents
+            THEN <<1, 1, 1, 1, 3, 4, 5, 5, 6, 7, 9, 12, 12, 12, 13, 13, 14, 15, 18, 22,
+                   30, 30, 30, 30, 31, 31, 31, 32, 32, 33>>
+            ELSE <<1, 1, 1, 2, 3, 4, 5, 5, 5, 6, 6, 7, 7, 8, 9, 10, 11, 12, 12, 13, 14, 15, 16, 17,
+                   18, 19, 19, 20, 21, 22, 22, 23>>
+\* see the module header
+WindowOk(m) == Window \/ ~(m.t = "NA" /\ m.n \in verts /\ ~HasChan(m.n))
 
 ReplayPending == \E c \in chans : stash[c] # <<>>
 
@@ -52,7 +75,7 @@ GNext == \/ /\ ~ReplayPending /\ Len(hist) < MaxLen
             /\ \E j \in 1..Len(ClassSeq) :
                  /\ Class(ClassSeq[j]) # {}
                  /\ \E m \in RandomSubset(1, Class(ClassSeq[j])) :
-                      Step(m) /\ hist' = Append(hist, m)
+                      WindowOk(m) /\ Step(m) /\ hist' = Append(hist, m)
          \/ /\ ReplayPending
             /\ \E c \in chans : \E i \in 1..Len(stash[c]) : ReplayOne(c, i)
             /\ UNCHANGED hist
